@@ -10,6 +10,7 @@ import (
 	"math/bits"
 	"runtime/debug"
 	"sort"
+	"strings"
 
 	"github.com/iotaledger/iota.go/consts"
 	"github.com/iotaledger/iota.go/trinary"
@@ -159,6 +160,34 @@ func genTrits(pattern string, seed uint64, m, n int) []trinary.Trits {
 		}
 		for j := range out {
 			out[j] = base
+		}
+	case "carved", "carved-swapped", "carved-replaced":
+		// lanes carved back to back from one flat buffer, the way a caller holding one big array builds a batch: in
+		// natural order; with two inner lanes exchanged (the batch was sorted or shuffled, the ends stayed); or with one
+		// inner lane replaced by a slice of its own. Each lane's input is still exactly src[j].
+		flat := make(trinary.Trits, n*m)
+		for i := range flat {
+			flat[i] = rt()
+		}
+		for j := range out {
+			out[j] = flat[j*n : (j+1)*n]
+		}
+		if m >= 3 {
+			a := 1 + rnd.IntN(m-2)
+			switch {
+			case pattern == "carved-swapped" && m >= 4:
+				b := 1 + rnd.IntN(m-2)
+				for b == a {
+					b = 1 + rnd.IntN(m-2)
+				}
+				out[a], out[b] = out[b], out[a]
+			case pattern != "carved":
+				own := make(trinary.Trits, n)
+				for i := range own {
+					own[i] = rt()
+				}
+				out[a] = own
+			}
 		}
 	case "overlap":
 		// windows into one flat buffer, lane j starting j trits in: the lanes overlap in memory and all differ
@@ -410,6 +439,7 @@ func Run(cfg *Config) proto.End {
 	}
 	if len(cfg.Ops) > 250 && cfg.Ops[0].Blocks >= 250 {
 		r.res.Probes["more_than_65535_transforms_on_one_instance"] = 1
+		r.res.Tags["special"] = "very-long"
 	}
 	r.res.Nontriv = changes >= 2
 	r.res.Tags["handles"] = fmt.Sprint(len(inboxes))
@@ -494,7 +524,7 @@ func (hd *handle) step(msg opMsg) (clone *handle) {
 		for j := 0; j < hd.m; j++ {
 			hd.lanes[j].Absorb(model[j])
 		}
-		if op.Pattern == "aliased" || op.Pattern == "overlap" {
+		if op.Pattern == "aliased" || op.Pattern == "overlap" || strings.HasPrefix(op.Pattern, "carved") {
 			hd.probes["absorb_lanes_sharing_memory"] = 1
 		}
 		// the caller reuses its input buffers: whatever Absorb needed from src it must have taken by now
@@ -683,6 +713,10 @@ func (hd *handle) step(msg opMsg) (clone *handle) {
 	return clone
 }
 
+// Flavour is the build flavour of the child (set by the child before it generates runs): the very long history is left
+// out of the race-detector builds, where 66 000 portable transforms take minutes.
+var Flavour string
+
 // Gen draws the configuration of run seed.
 func Gen(seed uint64, tier string) *Config {
 	r := kernel.NewRand(seed)
@@ -710,7 +744,7 @@ func Gen(seed uint64, tier string) *Config {
 		n = 20 + r.IntN(30)
 		c.M = 1 + r.IntN(3)
 	}
-	if r.IntN(2500) == 0 {
+	if veryLong := r.IntN(2500) == 0; veryLong && !strings.HasPrefix(Flavour, "race") {
 		// once in a long while: more transforms on one instance than a 16-bit counter holds (one lane, 260 absorbs of
 		// 250-odd blocks, then one block squeezed)
 		c.M = 1
@@ -721,7 +755,7 @@ func Gen(seed uint64, tier string) *Config {
 		c.Ops = append(c.Ops, Op{Kind: "squeeze", H: 0, Blocks: 1, Seed: r.Uint64()})
 		return c
 	}
-	patterns := []string{"random", "random", "random", "zero", "plus", "minus", "same", "onediff", "aliased", "overlap"}
+	patterns := []string{"random", "random", "random", "zero", "plus", "minus", "same", "onediff", "aliased", "overlap", "carved", "carved-swapped", "carved-replaced"}
 	sq := []bool{false} // the generator tracks which handles are squeezing, to respect the sponge discipline
 	for len(c.Ops) < n {
 		h := r.IntN(len(sq))
